@@ -97,11 +97,11 @@ Definition last_password (l : list api_op) (u : user) : string := last_password_
 
 (* the admin password of a slave after the forwarded PATCH /device requests that succeeded (body admin_password or none):
    the last one submitted - whatever it is, the empty password included; the hub must know exactly that one *)
-Fixpoint slave_password (pw : string) (sops : list (option string)) : string :=
+Fixpoint slave_password (pw : string) (sops : list sop) : string :=
   match sops with
   | [] => pw
-  | Some q :: r => slave_password q r
-  | None :: r => slave_password pw r
+  | SFwd (Some q) :: r => slave_password q r
+  | _ :: r => slave_password pw r        (* no admin_password in the request; a rename does not touch the password *)
   end.
 
 (* ---------------------------------------------------------------------------------------------------------------- *)
